@@ -306,10 +306,37 @@ def override(*keys):
     return deco
 
 
-@override('loader::load')
-def stub_loader_load(I, args, callee):
-    """environment stub: every file access fails (include files are unreadable) - stated in the evidence"""
-    return err(Adt('A2lError', 'FileOpenError', [Opaque('PathBuf'), Opaque('io::Error')]))
+FS = {}   # virtual file system of the current path: name -> list of bytes (symbolic allowed)
+
+
+@model('vrt_fs_write')
+def vrt_fs_write(I, args, callee):
+    """vrt_fs_write(name, bytes) -> path string; E2 keeps the content in a per-path dictionary"""
+    name = bytes(concrete_bytes(items_of(args[0])) or b'').decode()
+    FS[name] = list(items_of(args[1]))
+    return StringV(list(name.encode()))
+
+
+def _fs_name(v):
+    try:
+        return bytes(concrete_bytes(items_of(v)) or b'').decode()
+    except Exception:
+        return None
+
+
+@model('File::open', 'fs::File::open')
+def file_open(I, args, callee):
+    """environment model: only files written by vrt_fs_write exist"""
+    name = _fs_name(args[0])
+    if name is None or name not in FS:
+        return err(Opaque('io::Error'))
+    return ok(Opaque('File', name))
+
+
+@override('loader::read_data', 'read_data')
+def stub_read_data(I, args, callee):
+    f = deref(args[0])
+    return ok(VecV(list(FS[f.data])))
 
 
 @override('loader::make_include_filename', 'make_include_filename')
